@@ -159,13 +159,16 @@ func NewPeer(
 		if err != nil {
 			return nil, err
 		}
-		p.updateSub, err = p.bus.Subscribe(event.UpdateName, event.ReplicatorName)
-		if err != nil {
-			return nil, err
-		}
-		log.Info("Starting internal broadcaster for pubsub network")
-		go p.handleMessageLoop()
 	}
+
+	// Update events feed the replicators as well as the pubsub network, so they are
+	// handled whether or not pubsub is enabled (publishing is skipped without it).
+	p.updateSub, err = p.bus.Subscribe(event.UpdateName, event.ReplicatorName)
+	if err != nil {
+		return nil, err
+	}
+	log.Info("Starting internal broadcaster for replicators and pubsub network")
+	go p.handleMessageLoop()
 
 	p.server, err = newServer(p, options.GRPCDialOptions...)
 	if err != nil {
